@@ -42,9 +42,9 @@ ASSUMPTIONS = [
     "ExistentialVar._fresh_id is reset before each call so that the fresh variables are known",
 ]
 UNMODELLED = [
-    "check_call / synthesize_call / type_check_args / visit_Tuple / check_inst have no Lean model: they are covered by the "
-    "program-level generic-call tie (real check() vs the Robinson oracle) only; try_coerce_to (numeric coercions: such cases are "
-    "classified unknown), bidirectional inference through return-only type variables, Instantiator on nested generic function types",
+    "call path (Model/GenCall.lean) covers first-order arguments only: no numeric coercions (try_coerce_to; such cases are classified "
+    "unknown and not sent to the model), no @comptime/inout inputs, no generic function values as arguments, no list literals; "
+    "nested calls enter the model as already-typed arguments; Instantiator on nested generic function types",
     "FunctionType.unitary_flags (ignored by unify, dropped by FunctionType.transform; generator always uses NoFlags)",
     "Substituter on function types carrying explicit comptime_args: FunctionType.transform rebuilds the type without them "
     "(0.21.6; upstream 1.0.4 keeps them) — the substitution requests use default comptime args only; unify requests cover explicit ones",
@@ -62,7 +62,9 @@ MANIFEST = {
     "most-generality and the iff for well-sorted inputs in three `_partial` forms: when nothing is linear, for exact unifiers "
     "(any environment), and for the property's literal flag reading restricted to assignments that keep linearity — with "
     "machine-checked counterexamples showing the restriction is necessary; soundness of check_type_against for generic "
-    "function values. Model tied to ty.py/subst.py/expr_checker.py on every run by same-input correspondence on the real "
+    "function values; soundness of synthesize_call / check_call on first-order arguments incl. tuple literals, and the "
+    "iff (accepted exactly when an instantiation respecting the bounds fits, returned instantiation is that one) for arguments with "
+    "synthesised types (partial). Model tied to ty.py/subst.py/expr_checker.py on every run by same-input correspondence on the real "
     "guppylang classes (quick 5000 unify + 1500 check_type_against + 720 generic-call programs through check(), thorough 400000 + 40000 + 48000; "
     "exact equality of returned dicts) with an independent Robinson unifier as property oracle (unifiable or not, result unifies, result most general, "
     "principal instantiation).",
@@ -1026,6 +1028,10 @@ class GCGen:
             params = [("v", v) for v in tv] + [("op", 2, (("ta", T_INT), ("ca", ("v", v)))) for v in cv]
         outs = [("v", v) for v in tv] + [T_INT, T_BOOL, ("tup", (("ta", ("v", tv[0])), ("ta", T_INT))), ("op", 3, (("ta", ("v", tv[-1])),))]
         out = r.choice(outs)
+        if r.random() < 0.12:
+            # return-only type variable: inferable in checking position only
+            tv = tv + [2 * 3]
+            out = r.choice([("v", 6), ("tup", (("ta", ("v", 6)), ("ta", ("v", tv[0])))), ("op", 3, (("ta", ("v", 6)),))])
         name = f"f{len(self.callees)}"
         self.callees.append((name, tuple(tv + cv), tuple(params), out))
         return len(self.callees) - 1
@@ -1050,6 +1056,8 @@ class GCGen:
         if depth > 0 and x > 0.75 and gc_copyable(ty) and self.callees:
             # nested call of a generic function whose result can be ty
             ci = r.randrange(len(self.callees))
+            if 6 in self.callees[ci][1]:
+                return ("var", ty)       # return-only callees are only called at the root
             e = self.call_for(ci, ty, depth - 1)
             if e is not None:
                 return e
@@ -1088,10 +1096,10 @@ class GCGen:
         return e, mode
 
 
-def gc_eval(callees, e, counter):
+def gc_eval(callees, e, counter, expected=None):
     """oracle typing: ('ok', type) | ('err', classes).  Internally every sub-expression gets a type (a fresh wildcard
     variable where it is ill-typed) so that all problems the checker can meet first, in its evaluation order, are collected."""
-    ty, errs = _gc_eval(callees, e, counter)
+    ty, errs = _gc_eval(callees, e, counter, expected)
     return ("err", errs) if errs else ("ok", ty)
 
 
@@ -1100,7 +1108,7 @@ def _gc_wild(counter):
     return ("v", 2 * (900000 + counter[0]))
 
 
-def _gc_eval(callees, e, counter):
+def _gc_eval(callees, e, counter, expected=None):
     k = e[0]
     if k in ("var", "lit", "fname"):
         return e[1], set()
@@ -1124,12 +1132,17 @@ def _gc_eval(callees, e, counter):
             return _gc_wild(counter), errs
         counter[0] += 1
         ren = {v: ("v", 2 * (5000 + 10 * counter[0] + j) + v % 2) for j, v in enumerate(vs)}
-        th = robinson([(o_once(ren, q), t) for q, t in zip(params, tys)])
+        eqs = [(o_once(ren, q), t) for q, t in zip(params, tys)]
+        th = robinson(eqs)
+        if th is not None and expected is not None:
+            th = robinson(eqs + [(o_once(ren, out), expected)])
         if th is None:
             errs.add("TypeMismatchError")
             return _gc_wild(counter), errs
         if errs:
             return _gc_wild(counter), errs
+        if any(o_vars(o_once(th, ren[v])) for v in vs):
+            return _gc_wild(counter), {"TypeInferenceError", "ParameterInferenceError"}
         for v in vs:
             val = o_once(th, ren[v])
             if v % 2 == 0 and not gc_copyable(val):
@@ -1212,7 +1225,8 @@ def gc_closed_fns_of(e, acc):
 
 def gc_judge(callees, e, mode, ret):
     """-> (verdict accept/reject/unknown, admissible error classes, result type or None)"""
-    res = gc_eval(callees, e, [0])
+    retonly = e[0] == "call" and 6 in callees[e[1]][1]
+    res = gc_eval(callees, e, [0], expected=(ret if retonly and mode == "check" else None))
     kinds = set()
     gc_expr_kinds(callees, e, kinds)
     if mode == "check":
@@ -1223,6 +1237,64 @@ def gc_judge(callees, e, mode, ret):
     if mode == "check" and o_erase(res[1]) != o_erase(ret):
         return ("unknown" if mixed else "reject"), {"TypeMismatchError"}, res[1]
     return "accept", set(), res[1]
+
+
+
+GC_TAG = {"TypeMismatchError": "mismatch", "WrongNumberOfArgsError": "arity", "NonLinearInstantiateError": "bounds",
+          "TypeInferenceError": "infer", "ParameterInferenceError": "infer"}
+
+
+def gc_model_request(callees, e, mode, ret):
+    """the root call as a request for the Lean model of synthesize_call / check_call, or None when an inner call is
+    not accepted by the oracle (then the checker never completes the root call's own argument loop deterministically)"""
+    assert e[0] == "call"
+    name, vs, params, out = callees[e[1]]
+    tobv = {v: (("bv", j) if v % 2 == 0 else ("cbv", j)) for j, v in enumerate(vs)}
+
+    def conv(a):
+        if a[0] == "v":
+            return tobv[a[1]]
+        ks = kids(a)
+        return with_kids(a, [conv(c) for c in ks]) if ks else a
+
+    def ex(x):
+        if x[0] in ("var", "lit", "fname"):
+            return "(val " + sx(x[1]) + ")"
+        if x[0] == "tuple":
+            return "(tup" + "".join(" " + ex(y) for y in x[1]) + ")"
+        res = gc_eval(callees, x, [0])
+        if res[0] != "ok":
+            raise ValueError("inner call rejected")
+        return "(val " + sx(res[1]) + ")"
+
+    try:
+        es = " ".join(ex(x) for x in e[2])
+    except ValueError:
+        return None
+    bounds = " ".join("(1 1)" if v % 2 == 0 else "(0 0)" for v in vs)
+    f1 = " ".join(str(2 * (2000 + j) + v % 2) for j, v in enumerate(vs))
+    f2 = " ".join(str(2 * (3000 + j) + v % 2) for j, v in enumerate(vs))
+    ty = "synth" if mode == "synth" else sx(ret)
+    terms = [conv(q) for q in params] + [conv(out)]
+    return (f"(gcall {env_of(terms)} (" + " ".join(sx(conv(q)) for q in params) + f") {sx(conv(out))} ({bounds}) ({f1}) ({f2}) ({es}) {ty})")
+
+
+def gc_real_inst(m, cname, callee_name, vs):
+    """instantiation the checker recorded on the root call of caller `cname` (in the order of `vs`), and its type"""
+    from guppylang_internals.ast_util import get_type_opt
+    from guppylang_internals.engine import ENGINE
+    d = ENGINE.checked[getattr(m, cname).id]
+    cid = getattr(m, callee_name).id
+    for bb in d.cfg.bbs:
+        for st in bb.statements:
+            node = getattr(st, "value", None)
+            if type(node).__name__ == "GlobalCall" and node.def_id == cid:
+                names = [q.name for q in ENGINE.get_parsed(cid).ty.params] if hasattr(ENGINE, "get_parsed") else [q.name for q in ENGINE.parsed[cid].ty.params]
+                by = {nm: enc(a)[1] for nm, a in zip(names, node.type_args)}
+                ins = [by[f"T{v // 2}" if v % 2 == 0 else f"n{v // 2}"] for v in vs]
+                ty = get_type_opt(node)
+                return ins, (enc(ty) if ty is not None else None)
+    return None, None
 
 
 def gc_run(ctx, callees, cases):
@@ -1246,6 +1318,23 @@ def gc_run(ctx, callees, cases):
             got = out[0] if out[0] == "ok" else ("user:" + feed.err_class(out[1]) if out[0] == "user" else "crash:" + type(out[1]).__name__)
             one = decls + gc_render(callees, closed_fns, e, mode, ret, "main")
             ctx.count("gcall:" + one, nontrivial=True, kind=f"gcall:{got}:oracle-{verdict}")
+            kinds_ = set()
+            gc_expr_kinds(callees, e, kinds_)
+            if mode == "check":
+                gc_kinds(ret, kinds_)
+            req = gc_model_request(callees, e, mode, ret) if len(kinds_) <= 1 and out[0] != "crash" else None
+            if req is not None:
+                if got == "ok":
+                    try:
+                        ins, rty_real = gc_real_inst(m, f"c{i}", callees[e[1]][0], callees[e[1]][1])
+                    except Exception as ex_:  # noqa: BLE001
+                        ins, rty_real = None, None
+                        ctx.bump("gcall-model:inst-unreadable:" + type(ex_).__name__)
+                    real_s = None if ins is None else "accept (" + " ".join(sx(a) for a in ins) + ")" + (" " + sx(rty_real) if rty_real is not None else "")
+                else:
+                    real_s = GC_TAG.get(got.split(":", 1)[1], got)
+                if real_s is not None:
+                    ctx.gc_pending.append((req, real_s, one, {"callees": callees, "expr": e, "mode": mode, "ret": ret}))
             bad = None
             if out[0] == "crash":
                 bad = f"the checker crashed ({type(out[1]).__name__}: {out[1]})"
@@ -1265,6 +1354,7 @@ def gc_run(ctx, callees, cases):
 
 def gc_tie(ctx):
     rng = ctx.rng
+    ctx.gc_pending = []
     # corpus / replay
     fixed = [c["gcall"] for _fn, c in _corpus_other("gcall")]
     if ctx.replay_in and "gcall" in ctx.replay_in.get("replay", {}):
@@ -1281,10 +1371,27 @@ def gc_tie(ctx):
             e, mode = gg.case()
             res = gc_eval(gg.callees, e, [0])
             ret = res[1] if res[0] == "ok" else T_INT
+            if 6 in gg.callees[e[1]][1]:
+                # instantiate the return type with a random closed type for the return-only variable
+                _n, vs_, ps_, out_ = gg.callees[e[1]]
+                th_ = robinson([(q, t) for q, t in zip(ps_, [gc_eval(gg.callees, x, [0])[1] if gc_eval(gg.callees, x, [0])[0] == "ok" else T_INT for x in e[2]])]) if len(ps_) == len(e[2]) else None
+                rho_ = dict(th_ or {})
+                rho_[6] = gg.closed(1, allow_arr=False)
+                ret = o_once(rho_, out_)
+                if o_vars(ret):
+                    ret = T_INT
             if mode == "check" and rng.random() < 0.2:
                 ret = gg.closed(1)
             cases.append((e, mode, ret))
         gc_run(ctx, tuple(gg.callees), cases)
+    # ---- the same root calls through the Lean model of synthesize_call / check_call
+    if ctx.gc_pending:
+        replies = ctx.driver(DRIVER, [q[0] for q in ctx.gc_pending])
+        for (req, real_s, one, info), m_ in zip(ctx.gc_pending, replies):
+            ctx.bump("gcall-model:" + real_s.split(" ")[0])
+            same = (m_ == real_s) or (real_s.startswith("accept") and m_.startswith(real_s + " "))
+            if not same:
+                ctx.broke(f"correspondence Model/GenCall.lean vs check() on `{req}` (real={real_s} model={m_})\n{one}")
 
 # ---------------------------------------------------------------------------- running the real code
 def real_unify(S, T, SG0):
